@@ -223,13 +223,15 @@ func (p *ServiceProcessor) RegisterRESTHandler(f interface{}, namespace, method 
 	if err != nil {
 		return xerrors.Errorf("regex: %v", err)
 	}
-	val0 := reflect.New(sh.msgType)
 
 	h := func(w http.ResponseWriter, r *http.Request) {
 		if r.Method != method {
 			http.Error(w, wrapJSONMsg("unsupported method: "+r.Method), http.StatusMethodNotAllowed)
 			return
 		}
+		// a fresh argument object for every request: nothing of an earlier or
+		// concurrent request may carry over into this one
+		val0 := reflect.New(sh.msgType)
 		var msgBuf []byte
 		switch r.Method {
 		case "GET":
